@@ -245,7 +245,32 @@ def root_defaults(ctx):
     ctx.obligation(bool(ro))
     if not ro:
         ctx.violation("root-defaults/options-binding", ctx.where("parser::Parser::parse_roots"), "the options parsed after a root path are not stored for that root")
-    ctx.covered("root option defaults, Root::new, per-root reset in parse_roots", n, distinct_keys=list(want) + ["Root::new", "comma", "push", "binding"])
+    # a regexp root is expanded into literal roots by Root::clone_with_path: each of them carries every option of the root it
+    # came from (evaluated: a source root with every option off its default)
+    import interp
+    cw = "query::Root::clone_with_path"
+    if cw in ctx.prog.fns:
+        a_ = ctx.prog.adts.get("query::RootOptions")
+        src_opts = {}
+        for f_ in (a_["variants"][0]["fields"] if a_ else []):
+            t_ = str(f_.get("ty", ""))
+            src_opts[f_["name"]] = (True if t_ == "bool" else 7 if t_ in ("u32", "usize", "u64") else interp.some(True) if "Option<bool>" in t_ else
+                                    interp.V("TraversalMode::Dfs") if "TraversalMode" in t_ else interp.some("x") if "Option<" in t_ else interp.Opaque(f_["name"]))
+        ps_ = ctx.prog.fns[cw]["params"]
+        n += 1
+        try:
+            got = interp.Interp(prog=ctx.prog).run(ctx.anchor_hir(cw), {ps_[0]["id"]: "/expanded", ps_[1]["id"]: {"path": "/pattern.*", "options": dict(src_opts)}})
+            go = got.get("options") if isinstance(got, dict) else None
+            lost = sorted(k for k in src_opts if k != "regexp" and not (isinstance(go, dict) and go.get(k) == src_opts[k]))
+            okc = isinstance(got, dict) and got.get("path") == "/expanded" and not lost
+            why = "a root with every option set is expanded into %s: lost or changed %s" % ({k: v for k, v in (go or {}).items() if not k.startswith("__")}, lost)
+        except interp.Undecided as e:
+            okc, why = False, "cannot evaluate: %s" % e
+        ctx.obligation(okc)
+        if not okc:
+            ctx.violation("root-defaults/clone_with_path", ctx.where(cw),
+                          "the literal roots a regexp root expands to must keep all its options (depth window, archives, symlinks, ignore switches, traversal) and take the new path; %s" % why)
+    ctx.covered("root option defaults, Root::new, per-root reset in parse_roots, options kept by regexp expansion", n, distinct_keys=list(want) + ["Root::new", "comma", "push", "binding", "clone_with_path"])
 
 
 def _expr_dict(interp, **kw):
